@@ -360,7 +360,7 @@ class CFGBuilder:
                     self.g.add_edge(n, t, 'throw')
                 for t in frame.on_raise(GENEXIT):
                     self.g.add_edge(n, t, 'close')
-            elif kind in ('call', 'comp') and self.calls_raise:
+            elif kind in ('call', 'comp', 'subscr') and self.calls_raise:
                 for t in frame.on_raise(ANY):
                     self.g.add_edge(n, t, 'exc')
         return cur
@@ -640,6 +640,11 @@ def _events(e):
         return
     if isinstance(e, ast.Await):
         raise AnalysisError('await is not supported')
+    if isinstance(e, ast.Subscript) and isinstance(e.ctx, ast.Load):
+        yield from _events(e.value)
+        yield from _events(e.slice)
+        yield ('subscr', e)
+        return
     for c in ast.iter_child_nodes(e):
         if isinstance(c, ast.expr):
             yield from _events(c)
